@@ -115,6 +115,29 @@ def roles(fnode):
     return bufs, ints, flags
 
 
+def bool_locals(fnode):
+    """locals that only ever hold True/False literals (loop-control flags such as `done`, `settled`, `found`)"""
+    vals = {}
+    for n in ast.walk(fnode):
+        if isinstance(n, ast.Assign):
+            for t in n.targets:
+                if isinstance(t, ast.Tuple) and isinstance(n.value, ast.Tuple) and len(t.elts) == len(n.value.elts):
+                    for a, b in zip(t.elts, n.value.elts):
+                        if isinstance(a, ast.Name):
+                            vals.setdefault(a.id, []).append(b)
+                elif isinstance(t, ast.Name):
+                    vals.setdefault(t.id, []).append(n.value)
+                else:
+                    for x in ast.walk(t):
+                        if isinstance(x, ast.Name) and isinstance(x.ctx, ast.Store):
+                            vals.setdefault(x.id, []).append(None)
+        elif isinstance(n, (ast.AugAssign, ast.For, ast.NamedExpr)):
+            for x in ast.walk(n.target):
+                if isinstance(x, ast.Name):
+                    vals.setdefault(x.id, []).append(None)
+    return {k for k, vs in vals.items() if vs and all(isinstance(v, ast.Constant) and isinstance(v.value, bool) for v in vs)}
+
+
 def _is_intexpr(v, ints, bufs):
     if isinstance(v, ast.Constant) and type(v.value) is int:
         return True
@@ -179,6 +202,9 @@ class BufferAnalysis:
             self.names.append(fr.intenv[i])
         for fl in flags:
             fr.flagenv[fl] = '%s.%s' % (prefix, fl)
+        fr.boolenv = {b: 'b:%s.%s' % (prefix, b) for b in bool_locals(f.node) if b not in f.params and b not in flags and b not in bufs}
+        for b in fr.boolenv:
+            fr.intenv.pop(b, None)
         self.frames[f] = fr
 
     # ---------------------------------------------------------------- recording
@@ -255,6 +281,18 @@ class BufferAnalysis:
             return self.guard(st, test.operand, not pol, fr)
 
         fk = self.fact_key(test, fr)
+        bk = self.bool_test(test, fr)
+        if bk is not None:
+            key, want = bk
+            want = want if pol else not want
+
+            def fb(fl, z):
+                if key in fl and fl[key] != want:
+                    z.bot = True
+                    return (fl, z)
+                fl[key] = want
+                return (fl, z)
+            return st.map(fb)
 
         def f(fl, z):
             if fk is not None:
@@ -281,6 +319,20 @@ class BufferAnalysis:
                     return (fl, z)
             return (fl, self.guard_zone(z, test, pol, fr))
         return st.map(f)
+
+    def bool_test(self, test, fr):
+        """(partition key, value that makes the test true) for a test of a boolean local: `done`, `done is True`, `done == False`, `done is not True` ..."""
+        benv = getattr(fr, 'boolenv', {})
+        if isinstance(test, ast.Name) and test.id in benv:
+            return (benv[test.id], True)
+        if isinstance(test, ast.Compare) and len(test.ops) == 1 and isinstance(test.left, ast.Name) and test.left.id in benv \
+                and isinstance(test.comparators[0], ast.Constant) and isinstance(test.comparators[0].value, bool):
+            c = test.comparators[0].value
+            if isinstance(test.ops[0], (ast.Is, ast.Eq)):
+                return (benv[test.left.id], c)
+            if isinstance(test.ops[0], (ast.IsNot, ast.NotEq)):
+                return (benv[test.left.id], not c)
+        return None
 
     # ---------------------------------------------------------------- equality facts between object-valued expressions
     def fact_key(self, test, fr):
@@ -384,6 +436,12 @@ class BufferAnalysis:
                 return (fl, z)
             if name in fr.flagenv:
                 fl[fr.flagenv[name]] = status_const(val) if val is not None else None
+                return (fl, z)
+            if name in getattr(fr, 'boolenv', {}):
+                if isinstance(val, ast.Constant) and isinstance(val.value, bool):
+                    fl[fr.boolenv[name]] = val.value
+                else:
+                    fl.pop(fr.boolenv[name], None)
                 return (fl, z)
             if name in fr.intenv:
                 r = self.iexpr(val, fr) if val is not None else None
@@ -693,7 +751,7 @@ class BufferAnalysis:
                         z.forget(cv)
                 for n in cfr.intenv.values():
                     z.forget(n)
-                fl = {k: v for k, v in fl.items() if not k.startswith(cfr.prefix + '.') and not k.startswith('f:%s:' % cfr.prefix)}
+                fl = {k: v for k, v in fl.items() if not k.startswith(cfr.prefix + '.') and not k.startswith('f:%s:' % cfr.prefix) and not k.startswith('b:%s.' % cfr.prefix)}
                 return (fl, z)
             res = res.join(rz.map(f))
         return res
